@@ -57,13 +57,60 @@ Proof.
   - destruct (N.eqb_spec i k); auto.
 Qed.
 
+Lemma tlookup_tinsert_eq i a l : tlookup i (tinsert i a l) = Some a.
+Proof.
+  induction l as [|[j b] l IH]; cbn.
+  - rewrite N.eqb_refl. auto.
+  - destruct (N.leb_spec i j); cbn.
+    + rewrite N.eqb_refl. auto.
+    + destruct (N.eqb_spec i j); [lia|auto].
+Qed.
+
+Lemma tlookup_tinsert_neq i j a l : i <> j -> tlookup i (tinsert j a l) = tlookup i l.
+Proof.
+  intros Hne. induction l as [|[k b] l IH]; cbn.
+  - destruct (N.eqb_spec i j); congruence.
+  - destruct (N.leb_spec j k); cbn.
+    + destruct (N.eqb_spec i j); congruence.
+    + destruct (N.eqb_spec i k); auto.
+Qed.
+
 Lemma tlookup_tset_eq i a l : tlookup i (tset i a l) = Some a.
-Proof. unfold tset; cbn. rewrite N.eqb_refl. auto. Qed.
+Proof. apply tlookup_tinsert_eq. Qed.
 
 Lemma tlookup_tset_neq i j a l : i <> j -> tlookup i (tset j a l) = tlookup i l.
 Proof.
-  intros. unfold tset; cbn. destruct (N.eqb_spec i j); try congruence.
-  apply tlookup_tremove_neq; auto.
+  intros. unfold tset. rewrite tlookup_tinsert_neq by auto. apply tlookup_tremove_neq; auto.
+Qed.
+
+(** * The heap *)
+Lemma addr_eqb_spec a b : reflect (a = b) (addr_eqb a b).
+Proof.
+  destruct a as [i k], b as [j m]. unfold addr_eqb; cbn.
+  destruct (N.eqb_spec i j); cbn; [|constructor; congruence].
+  destruct (Nat.eqb_spec k m); constructor; congruence.
+Qed.
+
+Lemma hget_hset_eq a o h : hget a (hset a o h) = Some o.
+Proof.
+  induction h as [|[b p] h IH]; cbn.
+  - destruct (addr_eqb_spec a a); congruence.
+  - destruct (addr_eqb_spec a b); cbn.
+    + destruct (addr_eqb_spec a a); congruence.
+    + destruct (addr_leb a b); cbn.
+      * destruct (addr_eqb_spec a a); congruence.
+      * destruct (addr_eqb_spec a b); congruence.
+Qed.
+
+Lemma hget_hset_neq a a' o h : a' <> a -> hget a' (hset a o h) = hget a' h.
+Proof.
+  intros Hne. induction h as [|[b p] h IH]; cbn.
+  - destruct (addr_eqb_spec a' a); congruence.
+  - destruct (addr_eqb_spec a b); cbn.
+    + subst. destruct (addr_eqb_spec a' b); congruence.
+    + destruct (addr_leb a b); cbn.
+      * destruct (addr_eqb_spec a' a); congruence.
+      * destruct (addr_eqb_spec a' b); auto.
 Qed.
 
 Lemma tlookup_all_none l : (forall i, tlookup i l = None) -> l = [].
@@ -151,7 +198,7 @@ Proof. induction l as [|x l IH]; cbn; auto. destruct (b (tpc x)); cbn [length]; 
 (** * The invariant *)
 Definition entry_inv (s : state) (i : cid) : Prop :=
   match tlookup i (tbl s) with
-  | Some a => exists o, nth_error (heap s) a = Some o
+  | Some a => exists o, hget a (heap s) = Some o
                         /\ ln o = holders i s + waiters i s + cancellers i s
                         /\ ltok o + holders i s = 1
                         /\ 0 <= ltok o
@@ -164,8 +211,9 @@ Definition ptr_inv (s : state) : Prop :=
   forall t th i a, nth_error (ths s) t = Some th ->
     tpc th = Waiting i a \/ tpc th = Cancelling i a -> tlookup i (tbl s) = Some a.
 
+(* the object of contract i lives in i's own address range *)
 Definition inj_inv (s : state) : Prop :=
-  forall i j a, tlookup i (tbl s) = Some a -> tlookup j (tbl s) = Some a -> i = j.
+  forall i a, tlookup i (tbl s) = Some a -> fst a = i.
 
 Definition ok_pc (p : pc) : Prop := match p with Blocked _ _ | Panicked => False | _ => True end.
 Definition sane_inv (s : state) : Prop :=
@@ -210,7 +258,7 @@ Qed.
 
 Lemma entry_frame s s' i :
   tlookup i (tbl s') = tlookup i (tbl s) ->
-  (forall a, tlookup i (tbl s) = Some a -> nth_error (heap s') a = nth_error (heap s) a) ->
+  (forall a, tlookup i (tbl s) = Some a -> hget a (heap s') = hget a (heap s)) ->
   holders i s' = holders i s -> waiters i s' = waiters i s -> cancellers i s' = cancellers i s ->
   entry_inv s i -> entry_inv s' i.
 Proof.
@@ -249,11 +297,12 @@ Qed.
 
 (** ** The generic update: one session moves between pcs of contract i0, the entry of i0
     is rewritten (and possibly removed from the table) *)
-Lemma inv_update s t th th' i0 a o o' (rm : bool) :
+Lemma inv_update_gen s t th th' i0 a o' hp' (rm : bool) :
   Inv s ->
   nth_error (ths s) t = Some th ->
   tlookup i0 (tbl s) = Some a ->
-  nth_error (heap s) a = Some o ->
+  hget a hp' = Some o' ->
+  (forall a', a' <> a -> hget a' hp' = hget a' (heap s)) ->
   on_id i0 (tpc th) -> on_id i0 (tpc th') -> ok_pc (tpc th') ->
   (forall i a', tpc th' = Waiting i a' \/ tpc th' = Cancelling i a' -> a' = a /\ rm = false) ->
   (let h := holders i0 s - hz i0 (tpc th) + hz i0 (tpc th') in
@@ -263,23 +312,24 @@ Lemma inv_update s t th th' i0 a o o' (rm : bool) :
    else ln o' = h + w + c /\ ltok o' + h = 1 /\ 0 <= ltok o' /\ 1 <= ln o') ->
   Inv {| ths := upd (ths s) t th';
          tbl := if rm then tremove i0 (tbl s) else tbl s;
-         heap := upd (heap s) a o' |}.
+         heap := hp' |}.
 Proof.
-  intros [He Hp Hi Hs] Hn Hl Hh On On' Ok' Hptr Hnum.
+  intros [He Hp Hi Hs] Hn Hl Hh Hframe On On' Ok' Hptr Hnum.
   set (s' := {| ths := upd (ths s) t th'; tbl := if rm then tremove i0 (tbl s) else tbl s;
-                heap := upd (heap s) a o' |}).
+                heap := hp' |}).
   assert (Hent : forall i, entry_inv s' i).
   { intro i. destruct (counters_upd s s' t th th' i Hn eq_refl) as (E1 & E2 & E3).
     destruct (N.eq_dec i i0) as [->|Hne].
     - unfold entry_inv. cbn [tbl heap s']. rewrite E1, E2, E3.
       destruct rm.
       + rewrite tlookup_tremove_eq. exact Hnum.
-      + rewrite Hl. exists o'. split; [eapply nth_error_upd_eq; eauto|]. exact Hnum.
+      + rewrite Hl. exists o'. split; [exact Hh|]. exact Hnum.
     - destruct (on_id_other _ _ i On Hne) as (A1 & A2 & A3).
       destruct (on_id_other _ _ i On' Hne) as (B1 & B2 & B3).
       eapply entry_frame; [..|apply (He i)]; cbn [tbl heap s']; try lia.
       + destruct rm; auto. apply tlookup_tremove_neq; auto.
-      + intros a' Ha'. apply nth_error_upd_neq. intro; subst a'. apply Hne. eapply Hi; eauto. }
+      + intros a' Ha'. apply Hframe. intro; subst a'.
+        apply Hne. rewrite <- (Hi _ _ Ha'). apply (Hi _ _ Hl). }
   split; auto.
   - intros m y i a' Hm Hy. cbn [ths tbl s'] in *.
     apply nth_upd_cases in Hm. destruct Hm as [[-> ->]|[Hne Hm]].
@@ -297,12 +347,32 @@ Proof.
         fold (waiters i0 s') in Hle. rewrite E in Hle. cbn [wz] in Hle. rewrite N.eqb_refl in Hle. lia.
       * pose proof (sumz_nth_le (cz i0) (fun p => proj1 (cz_range i0 p)) _ _ _ Hm') as Hle.
         fold (cancellers i0 s') in Hle. rewrite E in Hle. cbn [cz] in Hle. rewrite N.eqb_refl in Hle. lia.
-  - intros i j a' Hi1 Hi2. cbn [tbl s'] in *. destruct rm; [|eapply Hi; eauto].
+  - intros i a' Hi1. cbn [tbl s'] in *. destruct rm; [|eapply Hi; eauto].
     destruct (N.eq_dec i i0) as [->|N1]; [rewrite tlookup_tremove_eq in Hi1; discriminate|].
-    destruct (N.eq_dec j i0) as [->|N2]; [rewrite tlookup_tremove_eq in Hi2; discriminate|].
-    rewrite tlookup_tremove_neq in Hi1, Hi2; auto. eapply Hi; eauto.
+    rewrite tlookup_tremove_neq in Hi1; auto.
   - intros m y Hm. cbn [ths s'] in Hm. apply nth_upd_cases in Hm. destruct Hm as [[-> ->]|[_ Hm]]; auto.
     eapply Hs; eauto.
+Qed.
+
+Lemma inv_update s t th th' i0 a o o' (rm : bool) :
+  Inv s ->
+  nth_error (ths s) t = Some th ->
+  tlookup i0 (tbl s) = Some a ->
+  hget a (heap s) = Some o ->
+  on_id i0 (tpc th) -> on_id i0 (tpc th') -> ok_pc (tpc th') ->
+  (forall i a', tpc th' = Waiting i a' \/ tpc th' = Cancelling i a' -> a' = a /\ rm = false) ->
+  (let h := holders i0 s - hz i0 (tpc th) + hz i0 (tpc th') in
+   let w := waiters i0 s - wz i0 (tpc th) + wz i0 (tpc th') in
+   let c := cancellers i0 s - cz i0 (tpc th) + cz i0 (tpc th') in
+   if rm then h + w + c = 0
+   else ln o' = h + w + c /\ ltok o' + h = 1 /\ 0 <= ltok o' /\ 1 <= ln o') ->
+  Inv {| ths := upd (ths s) t th';
+         tbl := if rm then tremove i0 (tbl s) else tbl s;
+         heap := hset a o' (heap s) |}.
+Proof.
+  intros. eapply inv_update_gen; eauto.
+  - apply hget_hset_eq.
+  - intros a' Hne. apply hget_hset_neq; auto.
 Qed.
 
 (* same, for steps that leave heap and table alone *)
@@ -310,7 +380,7 @@ Lemma inv_update_thread s t th th' i0 a o :
   Inv s ->
   nth_error (ths s) t = Some th ->
   tlookup i0 (tbl s) = Some a ->
-  nth_error (heap s) a = Some o ->
+  hget a (heap s) = Some o ->
   on_id i0 (tpc th) -> on_id i0 (tpc th') -> ok_pc (tpc th') ->
   (forall i a', tpc th' = Waiting i a' \/ tpc th' = Cancelling i a' -> a' = a) ->
   hz i0 (tpc th') = hz i0 (tpc th) ->
@@ -318,38 +388,32 @@ Lemma inv_update_thread s t th th' i0 a o :
   Inv (set_th s t th').
 Proof.
   intros HI Hn Hl Hh On On' Ok' Hptr E1 E2.
-  assert (X : Inv {| ths := upd (ths s) t th'; tbl := tbl s; heap := upd (heap s) a o |}).
-  { apply (inv_update s t th th' i0 a o o false); auto.
-    - intros i a' Hy. split; auto. eapply Hptr; eauto.
-    - cbn zeta. pose proof (inv_entry HI i0) as He. unfold entry_inv in He. rewrite Hl in He.
-      destruct He as (o1 & Ho1 & R). rewrite Hh in Ho1. inversion Ho1; subst o1. lia. }
-  rewrite (upd_same _ _ _ Hh) in X. exact X.
+  apply (inv_update_gen s t th th' i0 a o (heap s) false); auto.
+  - intros i a' Hy. split; auto. eapply Hptr; eauto.
+  - cbn zeta. pose proof (inv_entry HI i0) as He. unfold entry_inv in He. rewrite Hl in He.
+    destruct He as (o1 & Ho1 & R). rewrite Hh in Ho1. inversion Ho1; subst o1. lia.
 Qed.
 
 (** ** The fast path: a fresh lock object *)
-Lemma inv_lock_fast s t th th' i0 :
+Lemma inv_lock_fast s t th th' i0 k :
   Inv s ->
   nth_error (ths s) t = Some th -> tpc th = Idle ->
   tlookup i0 (tbl s) = None ->
   (tpc th' = Holding i0 \/ tpc th' = Releasing i0) ->
   Inv {| ths := upd (ths s) t th';
-         tbl := tset i0 (length (heap s)) (tbl s);
-         heap := heap s ++ [{| ln := 1; ltok := 0 |}] |}.
+         tbl := tset i0 (i0, k) (tbl s);
+         heap := hset (i0, k) {| ln := 1; ltok := 0 |} (heap s) |}.
 Proof.
   intros [He Hp Hi Hs] Hn Hidle Hl Hpc'.
-  set (s' := {| ths := upd (ths s) t th'; tbl := tset i0 (length (heap s)) (tbl s);
-                heap := heap s ++ [{| ln := 1; ltok := 0 |}] |}).
-  assert (Hlt : forall i a, tlookup i (tbl s) = Some a -> (a < length (heap s))%nat).
-  { intros i a Ha. specialize (He i). unfold entry_inv in He. rewrite Ha in He.
-    destruct He as (o & Ho & _). apply nth_error_Some. congruence. }
+  set (s' := {| ths := upd (ths s) t th'; tbl := tset i0 (i0, k) (tbl s);
+                heap := hset (i0, k) {| ln := 1; ltok := 0 |} (heap s) |}).
   assert (On : on_id i0 (tpc th)) by (rewrite Hidle; exact I).
   assert (On' : on_id i0 (tpc th')) by (destruct Hpc' as [E|E]; rewrite E; reflexivity).
   split.
   - intro i. destruct (counters_upd s s' t th th' i Hn eq_refl) as (E1 & E2 & E3).
     destruct (N.eq_dec i i0) as [->|Hne].
     + unfold entry_inv. cbn [tbl heap s']. rewrite tlookup_tset_eq.
-      exists {| ln := 1; ltok := 0 |}. split.
-      { rewrite nth_error_app2 by lia. rewrite Nat.sub_diag. reflexivity. }
+      exists {| ln := 1; ltok := 0 |}. split; [apply hget_hset_eq|].
       specialize (He i0). unfold entry_inv in He. rewrite Hl in He.
       pose proof (holders_nonneg i0 s). pose proof (waiters_nonneg i0 s). pose proof (cancellers_nonneg i0 s).
       rewrite E1, E2, E3, Hidle. cbn [ln ltok].
@@ -358,20 +422,18 @@ Proof.
       destruct (on_id_other _ _ i On' Hne) as (B1 & B2 & B3).
       eapply entry_frame; [..|apply (He i)]; cbn [tbl heap s']; try lia.
       * apply tlookup_tset_neq; auto.
-      * intros a Ha. apply nth_error_app1. eapply Hlt; eauto.
+      * intros a Ha. apply hget_hset_neq. intro Ea. apply Hne.
+        pose proof (Hi _ _ Ha) as Hf. rewrite Ea in Hf. cbn in Hf. auto.
   - intros m y i a Hm Hy. cbn [ths tbl s'] in *.
     apply nth_upd_cases in Hm. destruct Hm as [[-> ->]|[Hne Hm]].
     + destruct Hpc' as [E|E]; destruct Hy as [E'|E']; congruence.
     + pose proof (Hp _ _ _ _ Hm Hy) as Hold.
       destruct (N.eq_dec i i0) as [->|Hne']; [congruence|].
       rewrite tlookup_tset_neq; auto.
-  - intros i j a Hi1 Hi2. cbn [tbl s'] in *.
-    destruct (N.eq_dec i i0) as [->|N1]; destruct (N.eq_dec j i0) as [->|N2]; auto.
-    + rewrite tlookup_tset_eq in Hi1. rewrite tlookup_tset_neq in Hi2 by auto.
-      inversion Hi1; subst a. apply Hlt in Hi2. lia.
-    + rewrite tlookup_tset_eq in Hi2. rewrite tlookup_tset_neq in Hi1 by auto.
-      inversion Hi2; subst a. apply Hlt in Hi1. lia.
-    + rewrite tlookup_tset_neq in Hi1, Hi2 by auto. eapply Hi; eauto.
+  - intros i a Hi1. cbn [tbl s'] in *.
+    destruct (N.eq_dec i i0) as [->|N1].
+    + rewrite tlookup_tset_eq in Hi1. inversion Hi1; subst a. reflexivity.
+    + rewrite tlookup_tset_neq in Hi1 by auto. eapply Hi; eauto.
   - intros m y Hm. cbn [ths s'] in Hm. apply nth_upd_cases in Hm. destruct Hm as [[-> ->]|[_ Hm]].
     + destruct Hpc' as [E|E]; rewrite E; exact I.
     + eapply Hs; eauto.
@@ -392,7 +454,7 @@ Proof. destruct (acquired_pc th i) as [E|E]; rewrite E; reflexivity. Qed.
 Lemma entry_of_member s t th i :
   Inv s -> nth_error (ths s) t = Some th ->
   1 <= hz i (tpc th) + wz i (tpc th) + cz i (tpc th) ->
-  exists a o, tlookup i (tbl s) = Some a /\ nth_error (heap s) a = Some o
+  exists a o, tlookup i (tbl s) = Some a /\ hget a (heap s) = Some o
               /\ ln o = holders i s + waiters i s + cancellers i s
               /\ ltok o + holders i s = 1 /\ 0 <= ltok o /\ 1 <= ln o
               /\ hz i (tpc th) <= holders i s /\ wz i (tpc th) <= waiters i s
@@ -440,7 +502,7 @@ Proof.
   destruct a as [t i d b|t|t|t|t|t|t|t|t]; cbn [step] in Hs;
     destruct (nth_error (ths s) t) as [th|] eqn:Hn; try discriminate;
     destruct (tpc th) as [|i0 a0|i0 a0|i0|i0|i0 a0|] eqn:Hpc; try discriminate;
-    try rewrite Hmf in Hs.
+    try rewrite Hmf in Hs; try (injection Hs as <-; exact HI).
   - (* ALock *)
     set (th0 := {| tpc := Idle; tdone := d; tbad := b; tret := RNone |}) in *.
     destruct (tlookup i (tbl s)) as [a|] eqn:Hl.
@@ -508,7 +570,7 @@ Proof.
   - intro i. unfold entry_inv, holders, waiters, cancellers; cbn.
     rewrite !sumz_repeat_idle; auto.
   - intros t th i a Hn Hy. cbn in Hn. apply nth_repeat_idle in Hn. subst. destruct Hy; discriminate.
-  - intros i j a H. discriminate.
+  - intros i a H. discriminate.
   - intros t th Hn. cbn in Hn. apply nth_repeat_idle in Hn. subst. exact I.
 Qed.
 
